@@ -74,3 +74,34 @@ pub proof fn lemma_rsi_identity(ag: real, al: real, n: real, g: real, l: real, r
     assert((100real - inner) * gl == res * gl);
     assert(100real - inner == res) by(nonlinear_arith) requires (100real - inner) * gl == res * gl, gl > 0real;
 }
+
+pub proof fn lemma_mul_pos(a: real, b: real) requires a > 0real, b > 0real ensures a * b > 0real
+{ assert(a * b > 0real) by(nonlinear_arith) requires a > 0real, b > 0real; }
+
+// Jury stability conditions of z^2 - c2 z - c3 with c2 = 2 a cos, c3 = -a^2, 0 < a < 1, |cos| <= 1
+pub proof fn lemma_two_pole_coeffs(a: real, cv: real, c2: real, c3: real)
+    requires 0real < a < 1real, -1real <= cv <= 1real, c2 == 2real * a * cv, c3 == -a * a
+    ensures -1real < c3 < 0real, c2 < 1real - c3, -c2 < 1real - c3
+{
+    assert(0real < a * a < 1real) by(nonlinear_arith) requires 0real < a < 1real;
+    assert(-a * a == -(a * a)) by(nonlinear_arith);
+    assert(2real * a * cv <= 2real * a) by(nonlinear_arith) requires a > 0real, cv <= 1real;
+    assert(2real * a * cv >= -(2real * a)) by(nonlinear_arith) requires a > 0real, cv >= -1real;
+    assert(2real * a < 1real + a * a) by(nonlinear_arith) requires 0real < a < 1real;
+}
+pub proof fn lemma_sq_nonneg(x: real) ensures x * x >= 0real
+{ assert(x * x >= 0real) by(nonlinear_arith); }
+
+// 0 < (c + s - 1)/c < 2  for c, s > 0 on the unit circle (Roofing filter high-pass coefficient)
+pub proof fn lemma_roofing_alpha_core(c: real, s: real, q: real)
+    requires c > 0real, s > 0real, c * c + s * s == 1real, q * c == c + s - 1real
+    ensures 0real < q < 2real
+{
+    // c + s > 1 since (c+s)^2 = 1 + 2cs > 1 ; and s - 1 < c since s < 1 (as c > 0)
+    assert((c + s) * (c + s) == c * c + s * s + 2real * (c * s)) by(nonlinear_arith);
+    assert(c * s > 0real) by(nonlinear_arith) requires c > 0real, s > 0real;
+    assert(c + s > 1real) by(nonlinear_arith) requires (c + s) * (c + s) > 1real, c + s > 0real;
+    assert(s < 1real) by(nonlinear_arith) requires c * c + s * s == 1real, c > 0real, s > 0real;
+    assert(q > 0real) by(nonlinear_arith) requires q * c == c + s - 1real, c + s > 1real, c > 0real;
+    assert(q < 2real) by(nonlinear_arith) requires q * c == c + s - 1real, s < 1real, c > 0real;
+}
